@@ -1,4 +1,5 @@
 import TmVerif.Proofs.LexSound
+import TmVerif.Proofs.LexDecl
 /-!
 C09 — Lexer tables implement longest match with rule priority (property theorems only).
 
@@ -36,27 +37,24 @@ theorem C09_emptiness_correct (r : Regex) (u : List Int) :
   · rintro ⟨v, h⟩; exact ⟨v, (derivs_correct r u v).1 h⟩
   · rintro ⟨v, h⟩; exact ⟨v, (derivs_correct r u v).2 h⟩
 
-/-! ## Symbol classes -/
+/-! ## The specification -/
 
-/-- If `checkClasses` passes, every code point `r` of the scanned alphabet is mapped by `Scan`'s lookup to a
-class `c < NumSymbols` that has a representative `s`, and `r` and `s` belong to exactly the same range lists
-of the rules — over all 0x110000 code points (256 bytes), decided by a check linear in the symbol map. -/
-theorem C09_checkClasses_sound (rules : List Rule) (t : Tables) (hwf : t.wf = true)
-    (hc : checkClasses rules t = true) (r : Int) (h0 : 0 ≤ r) (h1 : r ≤ maxRune t.scanBytes) :
-    ∃ c s, symOf t r = some c ∧ 0 ≤ c ∧ c < t.numSymbols ∧ repOf t c = some s ∧
-      ∀ cs ∈ ruleSets rules, memB r cs = memB s cs :=
-  checkClasses_sound rules t hwf hc r h0 h1
+/-- The executable specification computes the property as stated with languages only (`ScanResult`: longest
+non-empty prefix of `text·eoi` in the language of a rule active in `sc`, the matching rule of greatest
+`Precedence` and, among those, first in rule order; otherwise action 0 and the longest prefix that is still a
+prefix of a word of an active rule) — for all rule sets, start conditions and texts. -/
+theorem C09_scanSpec_meets (rules : List Rule) (sc : Int) (chars : List (Int × Nat)) :
+    ScanResult rules sc chars (scanSpec rules sc chars) := scanSpec_meets rules sc chars
 
-/-- … and therefore has the same derivatives as its representative, for every expression built from the
-range lists of the rules (in particular every derivative of a rule, `csSub_deriv`). -/
-theorem C09_class_representative (rules : List Rule) (t : Tables) (hwf : t.wf = true)
-    (hc : checkClasses rules t = true) (r : Int) (h0 : 0 ≤ r) (h1 : r ≤ maxRune t.scanBytes) :
-    ∃ c s, symOf t r = some c ∧ repOf t c = some s ∧
-      ∀ d, CsSub d (ruleSets rules) → deriv r d = deriv s d ∧ CsSub (deriv r d) (ruleSets rules) := by
-  obtain ⟨c, s, h1, _, _, h4, h5⟩ := checkClasses_sound rules t hwf hc r h0 h1
-  exact ⟨c, s, h1, h4, fun d hd => ⟨deriv_congr _ r s h5 d hd, csSub_deriv r d _ hd⟩⟩
+/-- … and the relation has exactly one solution, so `ScanResult … res ↔ res = scanSpec …`. -/
+theorem C09_scanResult_unique (rules : List Rule) (sc : Int) (chars : List (Int × Nat)) (res : Nat × Int) :
+    ScanResult rules sc chars res ↔ res = scanSpec rules sc chars := by
+  constructor
+  · intro h
+    exact resultOf_unique rules sc _ _ _ ((scanResult_iff ..).1 h) ((scanResult_iff ..).1 (scanSpec_meets rules sc chars))
+  · rintro rfl; exact scanSpec_meets rules sc chars
 
-/-! ## The tables -/
+/-! ## Examples used for non-vacuity -/
 
 /-- Example rule set: `aaaa` → 1, `a` → 2 (needs a backtracking checkpoint), with the tables `lex.Compile` returns. -/
 def exRules : List Rule :=
@@ -81,6 +79,32 @@ def eoiTables : Tables where
   stateMap := #[0]
   dfa := #[2, -1, 1, -3, -3, -3, -2, -2, -2]
   backtrack := #[]
+
+/-! ## Symbol classes -/
+
+/-- If `checkClasses` passes, every code point `r` of the scanned alphabet is mapped by `Scan`'s lookup to a
+class `c < NumSymbols` that has a representative `s`, and `r` and `s` belong to exactly the same range lists
+of the rules — over all 0x110000 code points (256 bytes), decided by a check linear in the symbol map. -/
+theorem C09_checkClasses_sound (rules : List Rule) (t : Tables) (hwf : t.wf = true)
+    (hc : checkClasses rules t = true) (r : Int) (h0 : 0 ≤ r) (h1 : r ≤ maxRune t.scanBytes) :
+    ∃ c s, symOf t r = some c ∧ 0 ≤ c ∧ c < t.numSymbols ∧ repOf t c = some s ∧
+      ∀ cs ∈ ruleSets rules, memB r cs = memB s cs :=
+  checkClasses_sound rules t hwf hc r h0 h1
+
+example : exTables.wf = true ∧ checkClasses exRules exTables = true ∧ (0 : Int) ≤ 97 ∧
+    (97 : Int) ≤ maxRune exTables.scanBytes ∧ symOf exTables 97 = some 2 ∧ repOf exTables 2 = some 97 := by
+  decide +kernel
+
+/-- … and therefore has the same derivatives as its representative, for every expression built from the
+range lists of the rules (in particular every derivative of a rule, `csSub_deriv`). -/
+theorem C09_class_representative (rules : List Rule) (t : Tables) (hwf : t.wf = true)
+    (hc : checkClasses rules t = true) (r : Int) (h0 : 0 ≤ r) (h1 : r ≤ maxRune t.scanBytes) :
+    ∃ c s, symOf t r = some c ∧ repOf t c = some s ∧
+      ∀ d, CsSub d (ruleSets rules) → deriv r d = deriv s d ∧ CsSub (deriv r d) (ruleSets rules) := by
+  obtain ⟨c, s, h1, _, _, h4, h5⟩ := checkClasses_sound rules t hwf hc r h0 h1
+  exact ⟨c, s, h1, h4, fun d hd => ⟨deriv_congr _ r s h5 d hd, csSub_deriv r d _ hd⟩⟩
+
+/-! ## The tables -/
 
 /-- The full statement of the validator's soundness: for tables that pass `checkClasses` and `checkDfa`, the
 mirror of `Tables.Scan` returns `scanSpec` for every start condition and every text. -/
@@ -108,6 +132,13 @@ example : checkClasses exRules exTables = true ∧ checkDfa exRules exTables = t
   simp at hc
   rcases hc with rfl | rfl <;> decide
 
+/-- The full statement for byte strings (refuted by the same witness as `C09_checkDfa_sound_full`). -/
+def C09_scan_text_full : Prop :=
+  ∀ (rules : List Rule) (t : Tables), checkClasses rules t = true → checkDfa rules t = true →
+    ∀ (sc : Nat), sc < t.stateMap.size → ∀ (text : List Nat), (∀ b ∈ text, b < 256) →
+      lexScanChars t (sc : Int) (charsOf t.scanBytes text) =
+        some (scanSpec rules (sc : Int) (charsOf t.scanBytes text))
+
 /-- The statement for byte strings: in byte mode every byte is a character of width 1, in rune mode the text is
 decoded as `utf8.DecodeRuneInString` does (invalid bytes are `U+FFFD` of width 1). -/
 theorem C09_scan_text_partial (rules : List Rule) (t : Tables) (hc : checkClasses rules t = true)
@@ -116,6 +147,19 @@ theorem C09_scan_text_partial (rules : List Rule) (t : Tables) (hc : checkClasse
     lexScanChars t (sc : Int) (charsOf t.scanBytes text) =
       some (scanSpec rules (sc : Int) (charsOf t.scanBytes text)) :=
   scan_eq_spec rules t hc hd he sc hsc _ (charsOk_charsOf t text hb)
+
+/-- Full form of the next theorem (without `noEoiShift`). -/
+def C09_scan_meets_property_full : Prop :=
+  ∀ (rules : List Rule) (t : Tables), checkClasses rules t = true → checkDfa rules t = true →
+    ∀ (sc : Nat), sc < t.stateMap.size → ∀ (chars : List (Int × Nat)), CharsOk t chars →
+      ∃ res, lexScanChars t (sc : Int) chars = some res ∧ ScanResult rules (sc : Int) chars res
+
+/-- The property itself for validated tables: what `Scan` returns is the `ScanResult` of the rules. -/
+theorem C09_scan_meets_property_partial (rules : List Rule) (t : Tables) (hc : checkClasses rules t = true)
+    (hd : checkDfa rules t = true) (he : noEoiShift t = true) (sc : Nat) (hsc : sc < t.stateMap.size)
+    (chars : List (Int × Nat)) (hok : CharsOk t chars) :
+    ∃ res, lexScanChars t (sc : Int) chars = some res ∧ ScanResult rules (sc : Int) chars res :=
+  ⟨_, scan_eq_spec rules t hc hd he sc hsc chars hok, scanSpec_meets rules _ chars⟩
 
 example : charsOf false [0x61, 0xC3, 0xA9, 0xFF] = [(0x61, 1), (0xE9, 2), (0xFFFD, 1)] := by decide +kernel
 
